@@ -463,6 +463,37 @@ example : netRun { nodes := [⟨10, 0⟩, ⟨11, 1⟩, ⟨12, 0⟩], parent := n
       (fun _ => []) [localSend 12 3 7, localSend 11 3 8]
     = [[(⟨12, 0⟩, ⟨3, 12, some 0, 7⟩)]] := by decide
 
+/-- **on a TLS connection the stamped identity is the authenticated key**: whatever identity the peer announces,
+an accepted connection carries the key its handshake proved -/
+theorem c02_tls_setup_identity_is_proven (k a i : Nat) (h : receiveServerIdentity (some k) a = some i) : i = k := by
+  unfold receiveServerIdentity at h
+  simp only at h
+  split at h
+  · rename_i e; cases h; exact e.symm
+  · cases h
+
+/-- … and the honest announcement is accepted -/
+theorem c02_tls_setup_honest_accepted (k : Nat) : receiveServerIdentity (some k) k = some k := by
+  simp [receiveServerIdentity]
+
+/-- **the statement of the property with the connection set-up inside**: every connection `c` is a TLS connection
+whose handshake proved the key `key c` and on which the peer announced `ann c`, accepted by `receiveServerIdentity`
+as `ident c`.  Every element a handler or channel receives names a node hosted by the server whose key the
+connection's handshake proved — whatever was announced. -/
+theorem c02_tls_net_sound (i : Inst) (self : Nat) (key ann ident : Nat → Nat) (evs : List Arrival)
+    (hid : ∀ c, receiveServerIdentity (some (key c)) (ann c) = some (ident c)) :
+    ∀ d ∈ netRun i self ident (fun _ => []) evs, ∀ x ∈ d,
+      x.1 ∈ i.nodes ∧ x.1.id = x.2.sender ∧
+      ∃ a ∈ evs, a.frame.sender = some x.2.sender ∧ x.1.server = a.origin self key := by
+  have e : ident = key := funext fun c => c02_tls_setup_identity_is_proven _ _ _ (hid c)
+  subst e
+  intro d hd x hx
+  obtain ⟨h1, h2, a, ha, h3, _, _, h4⟩ := c02_net_sound i self ident evs d hd x hx
+  exact ⟨h1, h2, a, ha, h3, h4⟩
+
+/-- the announcement matters on a plain connection only (that is the residual assumption of this property) -/
+example : receiveServerIdentity (some 2) 1 = none ∧ receiveServerIdentity none 1 = some 1 := by decide
+
 /-- what the frames say about their origin is not an input: the deliveries are the same for every content of
 the frames' own identity field -/
 theorem c02_frame_identity_ignored (i : Inst) (self : Nat) (ident : Nat → Nat) (q : Queues) (evs : List Arrival)
@@ -834,6 +865,19 @@ theorem c02_shape_struct_ServerIdentity_Equal_b2 :
 theorem c02_shape_treeStorage_Get_b2 :
     Shapes.treestorage_treeStorage_Get_b2 =
    ["ts.Lock", "defer:ts.Unlock", "return:ts.trees[id]"] := rfl
+
+theorem c02_shape_router_Router_receiveServerIdentity_b2 :
+    Shapes.network_router_Router_receiveServerIdentity_b2 =
+   ["c.Receive", "assign:nm,err:=c.Receive()", "if:(err!=nil)",
+     "return:nil,xerrors.Errorf(\"\",err)", "if:(nm.MsgType!=ServerIdentityType)",
+     "return:nil,xerrors.Errorf(\"\",nm.MsgType.String())",
+     "assign:dst:=nm.Msg.(ServerIdentity)", "assign:tcpConn,ok:=c.(TCPConn)", "if:ok",
+     "assign:tlsConn,ok:=tcpConn.conn.(tls.Conn)", "if:ok", "tlsConn.ConnectionState",
+     "assign:cs:=tlsConn.ConnectionState()", "if:(len(cs.PeerCertificates)==0)",
+     "return:nil,xerrors.New(\"\")", "pubFromCN",
+     "assign:pub,err:=pubFromCN(tcpConn.suite,cs.PeerCertificates[0].Subject.CommonName)",
+     "if:(err!=nil)", "return:nil,xerrors.Errorf(\"\",err)", "if:!pub.Equal(dst.Public)",
+     "return:nil,xerrors.New(\"\")", "else", "if:!r.UnauthOk", "return:dst,nil"] := rfl
 
 
 end C02
